@@ -167,3 +167,10 @@ example : wellFormedSfnt (build [⟨headTag, [1, 2, 3]⟩]) = false := by decide
 example : wellFormedSfnt (assembleFont none (some [1]) [.absent, .bytes [1, 2], .dropped]) = true := by decide
 
 end Fontc.C05
+
+#print axioms Fontc.C05.build_wellformed
+#print axioms Fontc.C05.build_roundtrip
+#print axioms Fontc.C05.build_file_checksum
+#print axioms Fontc.C05.wellFormedSfnt_sound
+#print axioms Fontc.C05.assemble_wellformed
+#print axioms Fontc.C05.searchParams_spec
